@@ -230,6 +230,11 @@ func (cache *headersCache) getHeadersAndHashesByNonceAndShardId(nonce uint64, sh
 }
 
 func (cache *headersCache) keys(shardId uint32) []uint64 {
+	if _, ok := cache.headersNonceCache[shardId]; !ok {
+		// do not create the shard map here: the caller only holds the read lock
+		return make([]uint64, 0)
+	}
+
 	shardMap := cache.getShardMap(shardId)
 
 	return shardMap.keys()
